@@ -24,37 +24,55 @@
 (* equals the reference decomposition (RunIsRef).  The implementation is   *)
 (* bound to the REFERENCE definitions (Pattern B replay).                  *)
 (*                                                                         *)
-(* Action: AddPoint(t, v)   DrawdownGenerator::update(Timed{v,t}) and its  *)
+(* Actions: AddPoint(t, v)  DrawdownGenerator::update(Timed{v,t}) and its  *)
 (*                          callers TearSheetAssetGenerator::              *)
 (*                          update_from_balance, TearSheetGenerator::      *)
 (*                          update_from_position                           *)
+(*          ReadCurrent     DrawdownGenerator::generate(): READING the     *)
+(*                          current drawdown.  The reference decomposition *)
+(*                          is a function of the curve alone, so it cannot *)
+(*                          depend on when (or whether) Current was read:  *)
+(*                          ReadingIsPure - a read returns Current(curve)  *)
+(*                          and changes nothing any later figure depends   *)
+(*                          on.  (The tear sheets' generate() additionally *)
+(*                          FOLDS the current drawdown into Max/Mean by    *)
+(*                          design: that fold is `Fin`, judged once.)      *)
 (*                                                                         *)
 (* Left open (DESIGN 5.4 / C18 "Open"):                                    *)
 (*  - which of several reported drawdowns of EQUAL largest depth is "the"  *)
 (*    maximum: MaxSet is a set, any member is accepted;                    *)
 (*  - the mean duration is an integer number of milliseconds in the code:  *)
 (*    the exact rational mean is given, the binding accepts +- count ms.   *)
-(* Assumed: values > 0 (positive peaks), times strictly increasing.        *)
+(* Assumed: values > 0 (positive peaks), times NON-DECREASING: equal       *)
+(* consecutive times are legitimate (AssetState accepts a snapshot with    *)
+(* the timestamp of the previous one), so a drawdown may have zero         *)
+(* duration and two drawdowns may carry the same times: reference          *)
+(* drawdowns are therefore identified by the INDEX k of their peak and q   *)
+(* of their last point (bookkeeping only; the code's Drawdown is           *)
+(* value/start/end).                                                       *)
 (* generate() of the tear sheets folds the current drawdown into Max/Mean  *)
 (* every time it is called: `Fin` is the result of calling it ONCE.        *)
 EXTENDS Integers, Sequences, FiniteSets, Rational
 
 CONSTANTS
   Values,     \* curve values (integers > 0)
-  Gaps,       \* time increments (integers > 0)
+  Gaps,       \* time increments (integers >= 0)
   MaxLen      \* bound on the number of points
 
 VARIABLES
   curve,      \* Seq([t, v])   the history
   gen,        \* running generator state
   emitted,    \* Seq(drawdown) what the running generator has emitted
+  seen,       \* what the last ReadCurrent returned
   last
 
-vars == <<curve, gen, emitted, last>>
+vars == <<curve, gen, emitted, seen, last>>
 
 -----------------------------------------------------------------------------
-DD(value, ts, te) == [value |-> value, start |-> ts, end |-> te]
-NoDD == [has |-> FALSE, d |-> DD(Zero, 0, 0)]
+\* k = index of the peak, q = index of the last point of the period (the recovery point of a
+\* completed drawdown, the latest point for the current one)
+DD(value, ts, te, k, q) == [value |-> value, start |-> ts, end |-> te, k |-> k, q |-> q]
+NoDD == [has |-> FALSE, d |-> DD(Zero, 0, 0, 0, 0)]
 SomeDD(d) == [has |-> TRUE, d |-> d]
 
 Idx(c) == 1..Len(c)
@@ -73,23 +91,23 @@ RMaxOver(f, I) == LET k == CHOOSE k \in I : TRUE
 Decline(c, p, j) == Frac(c[p].v - c[j].v, c[p].v)
 Depth(c, p, q)   == RMaxOver([j \in p..q |-> Decline(c, p, j)], p..q)
 
-\* completed drawdowns, as a set (ends are distinct) ...
-CompletedSet(c) == {DD(Depth(c, pq[1], pq[2] - 1), c[pq[1]].t, c[pq[2]].t) :
+\* completed drawdowns, as a set ...
+CompletedSet(c) == {DD(Depth(c, pq[1], pq[2] - 1), c[pq[1]].t, c[pq[2]].t, pq[1], pq[2]) :
                       pq \in {x \in Records(c) \X Records(c) :
                                 Follows(c, x[1], x[2]) /\ ~IsZero(Depth(c, x[1], x[2] - 1))}}
-\* ... and in the order of their ends
-RECURSIVE ByEnd(_)
-ByEnd(S) == IF S = {} THEN <<>>
-            ELSE LET d == CHOOSE d \in S : \A e \in S : d.end <= e.end
-                 IN <<d>> \o ByEnd(S \ {d})
-Completed(c) == ByEnd(CompletedSet(c))
+\* ... and in the order in which they were completed
+RECURSIVE ByPeak(_)
+ByPeak(S) == IF S = {} THEN <<>>
+             ELSE LET d == CHOOSE d \in S : \A e \in S : d.k <= e.k
+                  IN <<d>> \o ByPeak(S \ {d})
+Completed(c) == ByPeak(CompletedSet(c))
 
 LastRecord(c) == CHOOSE p \in Records(c) : \A r \in Records(c) : r <= p
 Current(c) == IF Len(c) = 0 THEN NoDD
               ELSE LET p == LastRecord(c) d == Depth(c, p, Len(c))
-                   IN IF IsZero(d) THEN NoDD ELSE SomeDD(DD(d, c[p].t, c[Len(c)].t))
-\* the drawdown reported BY the latest point: the one that ends there
-EmittedBy(c) == LET S == {d \in CompletedSet(c) : Len(c) > 0 /\ d.end = c[Len(c)].t}
+                   IN IF IsZero(d) THEN NoDD ELSE SomeDD(DD(d, c[p].t, c[Len(c)].t, p, Len(c)))
+\* the drawdown reported BY the latest point: the one it completes
+EmittedBy(c) == LET S == {d \in CompletedSet(c) : d.q = Len(c)}
                 IN IF S = {} THEN NoDD ELSE SomeDD(CHOOSE d \in S : TRUE)
 
 Peak(c) == IF Len(c) = 0 THEN [has |-> FALSE, v |-> 0, t |-> 0]
@@ -111,22 +129,26 @@ Reported(c) == CompletedSet(c)
 ReportedFin(c) == CompletedSet(c) \cup (IF Current(c).has THEN {Current(c).d} ELSE {})
 
 (* ---- the running generator, as the code has it -------------------------- *)
-Gen0 == [has |-> FALSE, peak |-> 0, ddmax |-> Zero, tpeak |-> 0, tnow |-> 0]
+\* (kpeak / n: index of the peak and number of points seen - bookkeeping for the identity of a
+\*  drawdown, see the header)
+Gen0 == [has |-> FALSE, peak |-> 0, ddmax |-> Zero, tpeak |-> 0, tnow |-> 0, kpeak |-> 0, n |-> 0]
 GenCurrent(g) ==                                    \* DrawdownGenerator::generate
-  IF g.has /\ ~IsZero(g.ddmax) THEN SomeDD(DD(g.ddmax, g.tpeak, g.tnow)) ELSE NoDD
+  IF g.has /\ ~IsZero(g.ddmax) THEN SomeDD(DD(g.ddmax, g.tpeak, g.tnow, g.kpeak, g.n)) ELSE NoDD
 \* DrawdownGenerator::update -> <<state, emitted>>
 GenUpd(g, t, v) ==
-  IF ~g.has THEN <<[has |-> TRUE, peak |-> v, ddmax |-> Zero, tpeak |-> t, tnow |-> t], NoDD>>
-  ELSE IF v > g.peak
-       THEN <<[has |-> TRUE, peak |-> v, ddmax |-> Zero, tpeak |-> t, tnow |-> t],
-              GenCurrent([g EXCEPT !.tnow = t])>>
-       ELSE LET cur == Frac(g.peak - v, g.peak)    \* peak # 0 (positive peaks)
-            IN <<[g EXCEPT !.tnow = t, !.ddmax = IF Gt(cur, g.ddmax) THEN cur ELSE g.ddmax], NoDD>>
+  LET n == g.n + 1
+      fresh == [has |-> TRUE, peak |-> v, ddmax |-> Zero, tpeak |-> t, tnow |-> t, kpeak |-> n, n |-> n]
+  IN IF ~g.has THEN <<fresh, NoDD>>
+     ELSE IF v > g.peak
+          THEN <<fresh, GenCurrent([g EXCEPT !.tnow = t, !.n = n])>>
+          ELSE LET cur == Frac(g.peak - v, g.peak)    \* peak # 0 (positive peaks)
+               IN <<[g EXCEPT !.tnow = t, !.n = n, !.ddmax = IF Gt(cur, g.ddmax) THEN cur ELSE g.ddmax], NoDD>>
 
 -----------------------------------------------------------------------------
 Init == /\ curve = <<>>
         /\ gen = Gen0
         /\ emitted = <<>>
+        /\ seen = NoDD
         /\ last = [a |-> "Init", t |-> 0, v |-> 0]
 
 Now == IF Len(curve) = 0 THEN 0 ELSE curve[Len(curve)].t
@@ -137,16 +159,24 @@ AddPoint(t, v) ==
      IN /\ gen' = r[1]
         /\ emitted' = IF r[2].has THEN Append(emitted, r[2].d) ELSE emitted
   /\ last' = [a |-> "AddPoint", t |-> t, v |-> v]
+  /\ seen' = NoDD                        \* (a read value is only kept until the next point)
 
-AddPointAny == \E g \in Gaps, v \in Values : Len(curve) < MaxLen /\ AddPoint(Now + g, v)
+\* reading the current drawdown: the generator's generate() - a pure observation
+ReadCurrent ==
+  /\ seen' = GenCurrent(gen)
+  /\ last' = [a |-> "Read", t |-> 0, v |-> 0]
+  /\ UNCHANGED <<curve, gen, emitted>>
 
-Next == AddPointAny
+AddPointAny    == \E g \in Gaps, v \in Values : Len(curve) < MaxLen /\ AddPoint(Now + g, v)
+ReadCurrentAny == last.a = "AddPoint" /\ ReadCurrent
+
+Next == AddPointAny \/ ReadCurrentAny
 Spec == Init /\ [][Next]_vars
 
 -----------------------------------------------------------------------------
 (* C18 formulas                                                             *)
 TypeOK == /\ \A k \in Idx(curve) : curve[k].v \in Values
-          /\ \A k \in 1..(Len(curve) - 1) : curve[k].t < curve[k + 1].t
+          /\ \A k \in 1..(Len(curve) - 1) : curve[k].t <= curve[k + 1].t
 
 \* the running generator IS the reference decomposition
 RunIsRef == /\ emitted = Completed(curve)
@@ -154,28 +184,32 @@ RunIsRef == /\ emitted = Completed(curve)
             /\ gen.has = Peak(curve).has
             /\ gen.has => gen.peak = Peak(curve).v /\ gen.tpeak = Peak(curve).t /\ gen.tnow = Now
 
+\* reading is idempotent: what a read returns is the current drawdown of the curve, and the
+\* decomposition (a function of the curve) is the same whether or not / whenever it was read
+ReadIsCurrent == last.a = "Read" => seen = Current(curve)
+ReadingIsPure == [][last'.a = "Read" =>
+                      /\ Completed(curve') = Completed(curve) /\ Current(curve') = Current(curve)
+                      /\ Peak(curve') = Peak(curve) /\ gen' = gen /\ emitted' = emitted]_vars
+
 All == ReportedFin(curve)
 
 \* every reported drawdown is a real peak-to-trough decline
 PeakToTrough == \A d \in All :
-  /\ d.start < d.end
+  /\ d.start <= d.end /\ d.k < d.q
   /\ IsPos(d.value) /\ Lt(d.value, One)
-  /\ \E p \in Records(curve) :
-       /\ curve[p].t = d.start
-       \* the value is (peak - trough)/peak for the lowest point of the period
-       /\ LET seg == {j \in Idx(curve) : curve[j].t >= d.start /\
-                                        (curve[j].t < d.end \/ (Current(curve).has /\ d = Current(curve).d))}
-              lo  == CHOOSE j \in seg : \A i \in seg : curve[j].v <= curve[i].v
-          IN /\ d.value = Frac(curve[p].v - curve[lo].v, curve[p].v)
-             /\ \A j \in seg : curve[j].v <= curve[p].v      \* nothing in the period exceeds the peak
+  /\ d.k \in Records(curve) /\ curve[d.k].t = d.start /\ curve[d.q].t = d.end
+  \* the value is (peak - trough)/peak for the lowest point of the period
+  /\ LET seg == IF d \in CompletedSet(curve) THEN d.k..(d.q - 1) ELSE d.k..d.q
+         lo  == CHOOSE j \in seg : \A i \in seg : curve[j].v <= curve[i].v
+     IN /\ d.value = Frac(curve[d.k].v - curve[lo].v, curve[d.k].v)
+        /\ \A j \in seg : curve[j].v <= curve[d.k].v      \* nothing in the period exceeds the peak
 \* completed drawdowns end by a point exceeding the peak; periods do not overlap
-Recovery == \A k \in Idx(emitted) :
-  /\ \E q \in Records(curve), p \in Records(curve) :
-        curve[q].t = emitted[k].end /\ curve[p].t = emitted[k].start /\ curve[q].v > curve[p].v
-  /\ k < Len(emitted) => emitted[k].end <= emitted[k + 1].start
-  /\ Current(curve).has => emitted[k].end <= Current(curve).d.start
+Recovery == \A i \in Idx(emitted) :
+  /\ emitted[i].q \in Records(curve) /\ curve[emitted[i].q].v > curve[emitted[i].k].v
+  /\ i < Len(emitted) => emitted[i].q <= emitted[i + 1].k /\ emitted[i].end <= emitted[i + 1].start
+  /\ Current(curve).has => emitted[i].q <= Current(curve).d.k /\ emitted[i].end <= Current(curve).d.start
 \* at most one drawdown per running maximum
-OnePerPeak == \A d \in All, e \in All : d.start = e.start => d = e
+OnePerPeak == \A d \in All, e \in All : d.k = e.k => d = e
 \* a curve that never falls below its running maximum has no drawdowns, and conversely
 NoneIffMonotone == (All = {}) <=> \A k \in Idx(curve) : \A j \in 1..k : curve[j].v <= curve[k].v
 \* Max >= every reported drawdown; Mean lies between the smallest and the largest
